@@ -355,8 +355,8 @@ def judge_grouping(spec, rec):
 
 PARTS = [
     Part('graders', 'hyp', judge, strategy=lambda tier: strat_cases(tier),
-         budget={'quick': 6000, 'thorough': 150000}),
+         budget={'quick': 9000, 'thorough': 300000}),
     Part('products', 'hyp', judge, strategy=lambda tier: strat_products(tier),
-         budget={'quick': 900, 'thorough': 20000}),
+         budget={'quick': 1200, 'thorough': 40000}),
     Part('groupings', 'enum', judge_grouping, items=items_groupings, exhaustive=True),
 ]
